@@ -581,25 +581,25 @@ theorem cloneSim_spec {s c : Id} {tr : Bool} {h h' : Heap} (cl : Closed s.reg h)
   have xw11 : ExtX c hf hg := fun q x hq hx => by rw [ow11 q hq]; exact hx
   have xcg : ExtX c hc hg := xw7.trans ((s8.ext.trans x9).toX c |>.trans xw11)
   have xdg : ExtX c he hg := (x9.toX c).trans xw11
+  have xhd : Ext h hd := fun q x hq => by
+    have hqc : q ≠ c := by
+      rintro rfl
+      rw [x0 _ _ hq] at f3
+      cases f3
+    rw [ow7 q hqc]
+    exact s5.ext _ _ (xhb _ _ hq)
   have others : Others h.length h hg := ohd.trans (s8.others.trans (o9.trans ot11))
   refine ⟨r3, hlt, others, so, persons', groups', trc, inv, hso, g11, r9.trans r3.symm, r4.trans r3.symm,
     ?_, ?_, ?_, ?_, ?_⟩
-  · exact g11 ▸ (by
-      rw [ow11 trc (ne_of_fresh f9 ⟨_, s8.ext _ _ g7⟩)]
-      exact g9)
+  · rw [ow11 trc (ne_of_fresh f9 ⟨_, s8.ext _ _ g7⟩)]
+    exact g9
   · have : inv ≠ c := ne_of_fresh f4 ⟨_, g3⟩
     exact xcg _ _ this (s5.ext _ _ g4)
   · rw [r3]
     exact (s5.pair 0 hcb).lift hne clb hin.1 ohb xhb ⟨_, hcb⟩ xcg
   · rw [r3]
     exact s8.pairs.imp fun a b ha' hp =>
-      hp.lift hne cld (hin.2.1 a (List.mem_filter.mp ha').1) ohd (xhb.trans (fun q x hq => by
-        have : q ≠ c := by
-          rintro rfl
-          rw [xhb _ _ hq] at hcb
-          cases hcb
-          exact absurd (x0 _ _ hq) (by rw [f3]; intro hh; cases hh)
-        rw [ow7 q this]; exact s5.ext _ _ hq)) ⟨_, g7⟩ xdg
+      hp.lift hne cld (hin.2.1 a (List.mem_filter.mp ha').1) ohd xhd ⟨_, g7⟩ xdg
   · intro nd hdir hplain
     rw [r3]
     intro i x hx
